@@ -15,8 +15,9 @@ ToLower(s) == FoldS(s)
 Seqs(S, n) == [1..n -> S]
 Member(ix, sz, id) == [name |-> Pool[ix], size |-> sz, data |-> << Blob(id, 0, sz) >>, kind |-> Uncompressed]
 PathOf(d, ix) == Dirs[d] \o Pool[ix]
-ScenarioOf(ms, paths) ==
+ScenarioOfRel(ms, paths, rel) ==
   LET n == Len(ms)
+      Create(out, ins, expect) == IF rel THEN VolCreateRel(out, ins, expect) ELSE VolCreate(out, ins, expect)
       samePath == \E i, j \in 1..n : i # j /\ paths[i] = paths[j]        \* one file listed twice: same name, refused as duplicate
       puts == [i \in 1..n |-> Put(paths[i], ms[i].data)]
       refused == HasDup(ms)
@@ -30,10 +31,13 @@ ScenarioOf(ms, paths) ==
   IN IF samePath THEN <<>> ELSE
      << MkDir(<<100>>), MkDir(<<68>>) >> \o puts \o << Put(OutName, << Lit(<<1, 2, 3>>) >>) >>
      \o (IF refused
-         THEN << VolCreate(OutName, paths, "refuse"), FileEq(OutName, << Lit(<<1, 2, 3>>) >>) >>
+         THEN << Create(OutName, paths, "refuse"), FileEq(OutName, << Lit(<<1, 2, 3>>) >>) >>
               \o [i \in 1..n |-> FileEq(paths[i], ms[i].data)]
-         ELSE << VolCreate(OutName, paths, "ok"), FileEq(OutName, Layout(s)), VolOpenL(OutName, listing, FileLen(s)) >>
+         ELSE << Create(OutName, paths, "ok"), FileEq(OutName, Layout(s)), VolOpenL(OutName, listing, FileLen(s)) >>
               \o perMember \o << VolMemberErr(Len(s)), VolMemberErr(Len(s) + 1), VolIndex(<<113>>, NoIndex), VolExtractAll(<<120,122>>) >>)
+ScenarioOf(ms, paths) == ScenarioOfRel(ms, paths, FALSE)
+\* inputs given relative to the current directory, some as bare file names and some with a directory part (the sort key is the file name either way)
+MixedScenario(ixs, ds) == ScenarioOfRel([i \in 1..Len(ixs) |-> Member(ixs[i], i, i)], [i \in 1..Len(ixs) |-> PathOf(ds[i], ixs[i])], TRUE)
 Scenario(ixs, szs, ds) == ScenarioOf([i \in 1..Len(ixs) |-> Member(ixs[i], szs[i], i)], [i \in 1..Len(ixs) |-> PathOf(ds[i], ixs[i])])
 \* the output path names one of the inputs (same spelling up to letter case and a leading "./"): refused, nothing modified
 OutVariants == << OutName, <<46,47>> \o OutName, ToUpper(OutName), <<46,47,79,46,118,111,108>> >>       \* "o.vol" "./o.vol" "O.VOL" "./O.vol"
@@ -65,6 +69,8 @@ Init == \/ /\ kind = "rand" /\ fset \in {<<r>> : r \in 1..NRand} /\ fsz = <<>>
         \/ /\ kind = "set"
            /\ \E n \in 0..MaxFiles : fset \in Seqs(1..Len(Pool), n) /\ fsz \in Seqs(Sizes, n)
            /\ Distinct(fset)
+        \/ /\ kind = "mixed" /\ ~Big /\ fsz \in [1..3 -> {1, 3}] /\ (\E i, j \in 1..3 : fsz[i] # fsz[j])            \* fsz: per member, bare (1) or under "d/" (3)
+           /\ fset \in { <<1, 2, 4>>, <<3, 1, 4>>, <<1, 4, 3>>, <<5, 1, 2>>, <<4, 9, 3>> }
         \/ /\ kind = "missing" /\ ~Big /\ fset \in {<<1, 0>>, <<3, 1>>, <<9, 1>>} /\ fsz = <<>>
         \/ /\ kind = "self" /\ ~Big
            /\ fset \in {<<vo, vi, extra>> : vo \in 1..Len(OutVariants), vi \in 1..Len(OutVariants), extra \in {1, 3}} /\ fsz = <<>>
@@ -83,6 +89,7 @@ SortedAscending == kind \in {"set", "rand"} => LET s == SortCI(Members) IN
                      /\ Len(s) = Len(Members) /\ \A i \in 1..(Len(s) - 1) : ~Less(s[i + 1].name, s[i].name)
                      /\ \A m \in {Members[i] : i \in 1..Len(Members)} : \E j \in 1..Len(s) : s[j] = m
 Export == IF kind = "rand" THEN (LET sc == ScenarioOf(RandMembers(fset[1]), RandPaths(fset[1])) IN sc # <<>> => PrintT("S|" \o ToJson([id |-> <<"rand", Seed, fset[1]>>, steps |-> sc])))
+          ELSE IF kind = "mixed" THEN PrintT("S|" \o ToJson([id |-> <<"mixed", fset, fsz>>, steps |-> << MkDir(<<100>>) >> \o MixedScenario(fset, fsz)]))
           ELSE IF kind = "missing" THEN PrintT("S|" \o ToJson([id |-> <<"missing", fset>>, steps |-> MissingScenario(fset[1], fset[2] = 1)]))
           ELSE IF kind = "self" THEN PrintT("S|" \o ToJson([id |-> <<"self", fset>>, steps |-> SelfScenario(fset[1], fset[2], fset[3])]))
           ELSE LET n == Len(fset)
